@@ -209,14 +209,23 @@ SigOKForge(td, kd) ==
   /\ SameMat(td.sig.key, kd)
   /\ FamilyOK(td.sig.alg, td.sig.key)      \* the driver's signer could make it
 
-\* A token generated earlier: slot record from the Generate event
-\*   [ret, talg, thdr, tclm, validby, dots, tsiglen]
-ParseSlot(s) ==
-  IF s.ret = "tok" /\ s.dots = 2 /\ s.canon = 1 /\ StrAlg(s.talg) # "INVAL"
-  THEN [status |-> "ok", alg |-> StrAlg(s.talg), spelling |-> s.talg,
-        hdr |-> MapOfList(s.thdr), clm |-> MapOfList(s.tclm), sigEmpty |-> (s.tsiglen = 0)]
+\* A token generated earlier (normalised Generate result, see section 8):
+\*   g = [ret, wf, talg, hdr, clm, sigEmpty, validby]
+ParseSlot(g) ==
+  IF g.ret = "tok" /\ g.wf /\ StrAlg(g.talg) # "INVAL"
+  THEN [status |-> "ok", alg |-> StrAlg(g.talg), spelling |-> g.talg,
+        hdr |-> g.hdr, clm |-> g.clm, sigEmpty |-> g.sigEmpty]
   ELSE [status |-> "any", alg |-> "none", spelling |-> NONE, hdr |-> EmptyMap, clm |-> EmptyMap, sigEmpty |-> TRUE]
-SigOKSlot(s, item) == s.ret = "tok" /\ \E i \in DOMAIN s.validby : s.validby[i] = item.id
+SigOKSlot(g, item) == g.ret = "tok" /\ item.id \in g.validby
+
+\* any token descriptor: forged, from a slot (tk: slot -> generate result), or opaque bytes
+NoParse == [status |-> "any", alg |-> "none", spelling |-> NONE, hdr |-> EmptyMap, clm |-> EmptyMap, sigEmpty |-> TRUE]
+ParseTokIn(tk, td) == CASE td.src = "forge" -> ParseForge(td)
+                        [] td.src = "slot" -> ParseSlot(tk[td.slot])
+                        [] OTHER -> NoParse
+SigOKIn(tk, td, item) == CASE td.src = "forge" -> item.id # -1 /\ SigOKForge(td, item.kd)
+                           [] td.src = "slot" -> SigOKSlot(tk[td.slot], item)
+                           [] OTHER -> FALSE
 
 (***************************************************************************)
 (* 5. Claim policy                                               C04       *)
@@ -386,25 +395,35 @@ GenRef(b, t, rs, o) ==
   ELSE IF ~Supported(o, alg) THEN [null EXCEPT !.ret = ANY]
   ELSE [ret |-> "tok", alg |-> alg, hdr |-> hdr3, clm |-> cb.clm, key |-> cfg.key]
 
-\* observed generate result g: [ret, dots, pad, urlsafe, canon, talg, thdr, tclm, tsiglen, validby]
+\* A generate result, normalised:
+\*   g = [ret, wf, talg, hdr, clm, sigEmpty, validby]
+\*   wf: exactly two dots, no padding, URL-safe alphabet, every segment the canonical
+\*   unpadded base64url of what it decodes to; hdr/clm: decoded header and payload
+\*   objects as maps; validby: ids of the keys under which the signature verifies.
+NullG == [ret |-> "null", wf |-> FALSE, talg |-> NONE, hdr |-> EmptyMap, clm |-> EmptyMap, sigEmpty |-> TRUE, validby |-> {}]
+\* the reference result in that shape
+GenRefG(b, t, rs, o) ==
+  LET r == GenRef(b, t, rs, o) IN
+  IF r.ret = "tok" THEN [ret |-> "tok", wf |-> TRUE, talg |-> r.alg, hdr |-> r.hdr, clm |-> r.clm,
+                         sigEmpty |-> (r.alg = "none"), validby |-> IF r.alg = "none" THEN {} ELSE {r.key.id}]
+  ELSE [NullG EXCEPT !.ret = r.ret]
+
 \* C10 on a returned token
 P_C10(b, t, rs, o, g, hdrAfter, clmAfter) ==
-  LET ref == GenRef(b, t, rs, o) cb == GenCb(b, t, rs) IN
+  LET ref == GenRef(b, t, rs, o) IN
   /\ g.ret = "tok" =>
-       /\ g.dots = 2 /\ g.pad = 0 /\ g.urlsafe = 1 /\ g.canon = 1
+       /\ g.wf
        /\ ref.ret # "null"                       \* e.g. public-only key refused
        /\ (ref.ret = "tok" =>
-             /\ MapOfList(g.thdr) = ref.hdr
-             /\ MapOfList(g.tclm) = ref.clm
-             /\ g.talg = ref.alg
-             /\ (ref.alg = "none" <=> g.tsiglen = 0))
+             /\ g.hdr = ref.hdr /\ g.clm = ref.clm /\ g.talg = ref.alg
+             /\ (ref.alg = "none" <=> g.sigEmpty))
   /\ hdrAfter = b.hdr /\ clmAfter = b.clm       \* builder unchanged by generating
 \* C03, builder side: key (from setkey or callback) => never unsigned; no key => alg none, empty third segment
 P_C03g(b, t, rs, g) ==
   LET cb == GenCb(b, t, rs) IN
   g.ret = "tok" =>
-     /\ (Keyed(cb.cfg) => g.tsiglen > 0 /\ g.talg # "none")
-     /\ (~Keyed(cb.cfg) => g.tsiglen = 0 /\ g.talg = "none")
+     /\ (Keyed(cb.cfg) => ~g.sigEmpty /\ g.talg # "none")
+     /\ (~Keyed(cb.cfg) => g.sigEmpty /\ g.talg = "none")
 \* C02, builder side: produced only with the pinned algorithm and a key of its family
 P_C02g(b, t, rs, g) ==
   LET cb == GenCb(b, t, rs) IN
@@ -422,7 +441,7 @@ P_C14g(ret, err, msg) == ((ret = "null") <=> (err = 1)) /\ (err = 1 => msg = 1) 
 \* signature of a produced token is valid for the key used (C05 / C10)
 P_GenSig(b, t, rs, o, g) ==
   LET ref == GenRef(b, t, rs, o) IN
-  (g.ret = "tok" /\ ref.ret = "tok" /\ ref.alg # "none") => \E i \in DOMAIN g.validby : g.validby[i] = ref.key.id
+  (g.ret = "tok" /\ ref.ret = "tok" /\ ref.alg # "none") => ref.key.id \in g.validby
 
 BdAfterOffset(b, claim, secs, ret) ==
   IF ret # 0 \/ claim \notin {"exp", "nbf"} THEN b
@@ -464,7 +483,7 @@ Init ==
   /\ rings = [r \in RingIds |-> NoRing]
   /\ builders = [b \in ObjIds |-> Dead]
   /\ checkers = [c \in ObjIds |-> Dead]
-  /\ toks = [s \in SlotIds |-> [ret |-> "null"]]
+  /\ toks = [s \in SlotIds |-> NullG]
   /\ nextId = 0
 
 ItemAt(rs, r, idx) ==
